@@ -1138,6 +1138,7 @@ class CanProtect(BaseSecurityContext, metaclass=abc.ABCMeta):
         if message.code.is_request():
             outer_host = message.opt.uri_host
             proxy_uri = message.opt.proxy_uri
+            outer_proxy_uri = None
 
             inner_message = message.copy(
                 uri_host=None,
@@ -1153,7 +1154,11 @@ class CanProtect(BaseSecurityContext, metaclass=abc.ABCMeta):
                 inner_message.set_request_uri(proxy_uri, set_uri_host=False)
                 if inner_message.opt.proxy_uri is not None:
                     raise ValueError("Can not split Proxy-URI into options")
-                outer_uri = inner_message.remote.uri_base
+                # Scheme and authority are what the proxy needs; they stay
+                # outside as a path-less Proxy-Uri (RFC 8613 Section 4.1.3.3)
+                outer_proxy_uri = (
+                    f"{inner_message.remote.scheme}://{inner_message.remote.hostinfo}"
+                )
                 inner_message.remote = None
                 inner_message.opt.proxy_scheme = None
 
@@ -1163,7 +1168,7 @@ class CanProtect(BaseSecurityContext, metaclass=abc.ABCMeta):
                 outer_code = FETCH
         else:
             outer_host = None
-            proxy_uri = None
+            outer_proxy_uri = None
 
             inner_message = message.copy()
 
@@ -1173,10 +1178,9 @@ class CanProtect(BaseSecurityContext, metaclass=abc.ABCMeta):
         outer_message = Message(
             code=outer_code,
             uri_host=outer_host,
+            proxy_uri=outer_proxy_uri,
             observe=None if message.code.is_response() else message.opt.observe,
         )
-        if proxy_uri is not None:
-            outer_message.set_request_uri(outer_uri)
 
         plaintext = bytes([inner_message.code]) + inner_message.opt.encode()
         if inner_message.payload:
